@@ -240,6 +240,7 @@ def p_c05(run):
     import whole as W
     q = run.tier == "quick"
     whole_tie(run, ("native", "w32") if q else ("native", "w32", "noua", "neutral", "neutral32"), W.pctr_parts(q))
+    whole_tie(run, ("native",) if q else ("native", "w32", "noua"), W.vctr_parts(q))
     run_scripts(run, G.gen_c05(run.rng, run.tier), std_variants(run, cfgs))
 
 KNOWN = json.load(open(os.path.join(C.VERIF, "known_findings.json")))
@@ -251,6 +252,9 @@ def p_c06(run):
     # the calls' contracts (WholePar.ppar_model): one statement for all back ends
     import whole as W
     whole_tie(run, ("native",), [p_ for p_ in W.ppar_parts(run.tier == "quick") if "_enc_" in p_ or run.tier != "quick"])
+    # CTR: the generic and every SIMD encryption function equal ModelCtr.crypt at batch size 1 / 4 / 8 on the image (pctr_model,
+    # vctr_model_*); api_ctr*_backend_independent relates the three batch sizes
+    whole_tie(run, ("native",), W.pctr_parts(True)[:3] + W.vctr_parts(run.tier == "quick")[:2 if run.tier == "quick" else None])
     for title, body, meta in G.gen_c06(run.rng, run.tier):
         kind = title.split()[0]
         bes = ["def", "v128", "v256"] if kind in ("c128", "p128") else ["def", "v128"]
